@@ -599,7 +599,28 @@ func (c *checker) handleFailure(t *kit.Trace, agg *kit.Stats) int {
 				i = -1
 				continue
 			}
-			return c.fail2("violation %s does not replay reliably; trace kept at %s", class, raw)
+			// It did replay once (base) but not every time: the code under
+			// test behaves nondeterministically beyond what the simulator
+			// owns (e.g. goroutines it starts itself). Report it with an
+			// attempts count rather than dropping a real finding.
+			base.Trace.Viol = base.Viol
+			if base.Trace.Config == nil {
+				base.Trace.Config = map[string]int64{}
+			}
+			base.Trace.Config["attempts"] = 12
+			base.Viol.Detail = "(not reproduced by every execution: nondeterminism in the code under test that the simulator does not control; the replay tries up to 12 fresh processes)\n" + base.Viol.Detail
+			final := filepath.Join(dir, fmt.Sprintf("%d-%s.json", t.Seed, safeName(class)))
+			if err := base.Trace.WriteFile(final); err != nil {
+				return c.fail2("%v", err)
+			}
+			fmt.Printf("violation: class=%s key=%s\n%s\n", base.Viol.Class, base.Viol.Key, base.Viol.Detail)
+			if agg == nil {
+				agg = kit.NewStats()
+				agg.Runs = 1
+			}
+			_ = c.writeEvidence(agg, c.distinctAtFailure, 0, []*kit.Trace{base.Trace}, nil, nil, 1, final)
+			fmt.Printf("VIOLATION property=%s replay=%s\n", c.id, final)
+			return 1
 		}
 		if fin != nil && (fin.Viol.Step != rr.Viol.Step) {
 			return c.fail2("violation %s replays at different steps (%d vs %d): simulator non-determinism; trace kept at %s", class, fin.Viol.Step, rr.Viol.Step, minPath)
